@@ -28,7 +28,9 @@ type Line struct {
 	Txt    string          `json:"txt"`              // raw line, padding collapsed to the marker
 	Pad    int             `json:"pad,omitempty"`
 	CRLF   bool            `json:"crlf,omitempty"`
-	Cat    string          `json:"cat,omitempty"` // generator's label of the token
+	Cat    string          `json:"cat,omitempty"`    // generator's label of the token
+	Unsafe bool            `json:"unsafe,omitempty"` // id: the stored value is no valid HTTP header field value
+	InitOK bool            `json:"initOk,omitempty"` // an answer to initialize: its result decodes as an InitializeResult
 }
 
 // Frame is one stdio token.
@@ -44,16 +46,24 @@ type Frame struct {
 
 type Case struct {
 	N     int    `json:"n"`
-	C     string `json:"c"`     // readers.json | readers.post | readers.get | readers.legacy | readers.stdio
-	Label string `json:"label"` // the trigger category used in fingerprints
+	C     string `json:"c"`              // readers.json | readers.post | readers.get | readers.legacy | readers.stdio
+	Label string `json:"label"`          // the trigger category used in fingerprints
 	Trig  string `json:"trig,omitempty"` // a coarser class than the label, when the generator names one (fingerprints)
 	// json
 	Status int    `json:"status,omitempty"`
 	CType  string `json:"ctype,omitempty"`
 	Body   *Line  `json:"body,omitempty"`
 	// post / get
-	Req      int      `json:"req,omitempty"`
-	SlowMs   int      `json:"slowMs,omitempty"` // the call's deadline when the generator expects a slow (not a stuck) decode
+	Req    int `json:"req,omitempty"`
+	SlowMs int `json:"slowMs,omitempty"` // the call's deadline when the generator expects a slow (not a stuck) decode
+	// handshake histories: answers to the first initialize requests (bad content); the one after them is answered properly
+	BadInits []Line `json:"badInits,omitempty"`
+	// get: an id line in front of the closing well-formed frame
+	SentinelID *Line `json:"sentinelId,omitempty"`
+	// decode: the typed call, the client it is made on, the answers to consecutive calls
+	Via      string   `json:"via,omitempty"`
+	Method   string   `json:"method,omitempty"`
+	Docs     []Line   `json:"docs,omitempty"`
 	Handlers []string `json:"handlers"`
 	Lines    []Line   `json:"lines,omitempty"`
 	End      string   `json:"end,omitempty"`
@@ -1084,5 +1094,8 @@ func genCases(r *rand.Rand, thorough bool) []*Case {
 	g.legacyCases(thorough)
 	g.stdioCases(thorough)
 	g.schemaCases(thorough)
+	g.handshakeCases()
+	g.idCases()
+	g.decodeCases()
 	return g.cases
 }
